@@ -4,3 +4,8 @@ import CssVerif.Props.C12
 #print axioms CssVerif.C12.url_survives
 #print axioms CssVerif.C12.string_survives
 #print axioms CssVerif.C12.snapshot_counterexamples
+#print axioms CssVerif.C12.gen_uri_layout
+#print axioms CssVerif.C12.uri_one_token
+#print axioms CssVerif.C12.uri_one_token_rest
+#print axioms CssVerif.C12.url_single_token_roundtrip
+#print axioms CssVerif.C12.uri_tokenize_alone
